@@ -123,6 +123,10 @@ def populate(obj, n, is_model):
            'J': np.arange(n, dtype=np.int16) - 3,
            # variables named like members of the object (a property, a method): variables all the same
            'size': np.arange(n, dtype=float) - 7.25, 'copy': np.arange(n, dtype=np.int64) + 70}
+    if not is_model:
+        # a plain container may hold variables that merely share the names of a model's solution records: ordinary variables
+        ids['status'] = np.array([f'q{i}' for i in range(n)], dtype='<U2')
+        ids['iterations'] = np.arange(n, dtype=np.int64) + 40
     for name, arr in ids.items():
         if name in obj.__dict__['index']:
             obj.__dict__['_' + name][:] = arr
